@@ -180,7 +180,8 @@ NESTED_NEXT_V_RE = re.compile(r"next%3D%252Fwatch%253Fv%253D([^%&]+)", re.I)
 FRAGMENT_V_RE = re.compile(
     r"^(?:%2F|/)watch(?:%3F|\?)v(?:%3D|=)([a-zA-Z0-9_-]{11})", re.I
 )
-QUERY_LIST_RE = re.compile(QUERY_VALUE_TEMPLATE % r"list", re.I)
+# NOTE: the value of a query item stops where the fragment starts
+QUERY_LIST_RE = re.compile(r"list=([^&#]+)", re.I)
 
 YOUTUBE_VIDEO_URL_TEMPLATE = "https://www.youtube.com/watch?v=%s"
 YOUTUBE_USER_URL_TEMPLATE = "https://www.youtube.com/user/%s"
